@@ -20,6 +20,10 @@ add("C12",
     "Coq theorems for all documents, results and definite reference paths of any depth: put-get, frame (every incomparable member unchanged, nothing else appears), '$'/null, well-formedness, error typing, dot/bracket/index notations tokenised alike by reader and writer; F30 (null document read as {}) is a refuted theorem and a known finding. ~20k differential cases per run tie the model (definite fragment of jsonpath 0.82, Python int()) to the code, with oracles evaluated in Coq on observed outputs (incl. aliasing: result = input itself / sub-object).",
     "Trusted: Coq kernel + vm_compute; translator (reads the writer's delimiter class); hand-written Model/Paths.v tied only by differential runs; jsonpath beyond definite paths not modelled; code points <= 255.",
     "Coq proof (induction on paths/JSON) + differential correspondence with Coq-evaluated oracles", "DESIGN.md section 6 (C12)")
+add("C14",
+    "Coq theorems: the handler table regenerated from choose() equals the documented table (operator, helper, operand type per name); table-driven evaluation agrees with the typed specification for numeric/string/boolean/case-insensitive/timestamp comparisons and the Is* tests; a missing Variable or wrong-typed value never matches; And/Or/Not are forallb/existsb/negb at any depth; first match wins, Default else States.NoChoiceMatched; StringMatches is characterised by an inductive relation ('*' only). ~11k executions of real Choice states per run are checked in Coq against the independent specification (ChoiceSpec) and against the model.",
+    "Trusted: Coq kernel + vm_compute; translator; pins (AST digests) for hand-modelled handlers; timestamps on the canonical fixed-width grammar (strptime leniency outside the model); fnmatch tied by differential runs only.",
+    "Coq proof over regenerated handler table + executable spec oracle on real executions", "DESIGN.md section 6 (C14)")
 DONE = [c["property_id"] for c in checks]
 m = {
  "version": 1,
